@@ -85,6 +85,7 @@ class Model:
         self.hasparent = {}  # (key, relname) -> bool   (relname = the relationship through which the key is a member)
         self.orphaned_outside = set()
         self.removed_by = {}  # (item, relname) -> the object it was last removed from
+        self.touched = set()  # objects that received a column change or any relationship event since the last flush (dirty)
         self.dirty = False  # any op since the epoch started
 
     def kind(self, key):
@@ -194,6 +195,11 @@ class Model:
         """src.r.append(dst) / src.r = dst, initiated on relationship r (only r itself cascades save-update; its backref does not)"""
         srck, dstk, uselist, rev = RELS[r]
         self.dirty = True
+        self.touched |= {src, dst}  # attribute events make them dirty even when the net change is nil
+        if rev is not None:
+            o_ = self.rel[(dst, rev)] if uselist else self.rel[(src, r)]
+            if o_ is not None:
+                self.touched.add(o_)
         if uselist:
             if self.insession(src) and self.has(r, "save-update") and not self.insession(dst):
                 self.save_or_update(dst)
@@ -225,6 +231,7 @@ class Model:
     def unlink(self, r, src, item):
         srck, dstk, uselist, rev = RELS[r]
         self.dirty = True
+        self.touched |= {src, item}
         if uselist:
             self.rel[(src, r)].remove(item)
             self._list_removed(src, r, item)
@@ -249,6 +256,8 @@ class Model:
         doomed = set()
         marked = {k for k, s in self.state.items() if s == "D"}
         work = [k for k, s in self.state.items() if s == "D"]
+        late = set()  # turned into a delete while the flush is already pre-processing (delete-orphan target of a deleted referrer)
+        first = set()
         # persistent orphans: removed from a delete-orphan relationship and not re-attached
         for k, s in list(self.state.items()):
             if s == "S" and self.is_orphan(k):
@@ -264,9 +273,12 @@ class Model:
                             # one-to-many without reverse side: also the *deleted* ex-parent's flush examines what was removed from it
                             okst = ("S", "P", "D") if r in UNI else ("S", "P")
                             # ... and only sees what was in the collection at the last flush (attached and removed again since: no net history)
-                            seen_by_flush = seen_by_flush or (by is not None and self.state.get(by) in okst and k in (self.committed.get((by, r)) or []))
+                            seen_by_flush = seen_by_flush or any(
+                                x[0] == d[0] and sx in okst and k in (self.committed.get((x, r)) or []) and k not in self.members(x, r) for x, sx in self.state.items()
+                            )
                 if seen_by_flush:
                     work.append(k)
+                    first.add(k)
         while work:
             k = work.pop()
             if k in doomed:
@@ -282,15 +294,18 @@ class Model:
                     for t in self.all_pending(k, r):
                         if self.state[t] in ("S", "D") and t not in doomed:
                             work.append(t)
+                            late.add(t)
         nulled = set()  # (key, relname of the scalar side) foreign keys set to NULL because the parent row goes away
         for k in doomed:
             for r in BY_SRC[k[0]]:
                 srck, dstk, uselist, rev = RELS[r]
                 if uselist and (rev is not None or r in UNI) and not self.has(r, "delete"):
-                    if self.rel[(k, r)] != (self.committed.get((k, r)) or []) and k not in marked:
-                        # the collection itself has unflushed changes and its owner is turned into a delete during the flush (orphan /
-                        # delete-orphan target of a deleted referrer): it was already pre-processed as a save, the de-association of
-                        # its remaining members is not performed - unspecified corner, foreign keys not judged
+                    was_dirty = k in self.touched or any(self.rel[(k, q)] != self.committed.get((k, q), [] if RELS[q][2] else None) for q in BY_SRC[k[0]])
+                    if k not in marked and ((k in late and k not in first and was_dirty) or self.rel[(k, r)] != (self.committed.get((k, r)) or [])):
+                        # the owner is turned into a delete while the flush is under way (delete-orphan target of a deleted referrer,
+                        # or an orphan whose collection has unflushed changes) after it was already pre-processed as a save because it was
+                        # dirty: the de-association of its remaining members is not performed - unspecified corner (only reachable with
+                        # delete-orphan configured without delete), foreign keys not judged
                         continue
                     for m in self.members(k, r):
                         # members attached since the last flush are not de-associated by the delete (unit of work looks at
@@ -404,7 +419,7 @@ class _Run:
             for o in s.scalars(select(cls).order_by(cls.id)):
                 self.objs[(kind, o.id)] = o
         m.state = {k: "S" for k in self.objs}
-        m.rel, m.hasparent, m.orphaned_outside, m.dirty, m.removed_by = {}, {}, set(), False, {}
+        m.rel, m.hasparent, m.orphaned_outside, m.dirty, m.removed_by, m.touched = {}, {}, set(), False, {}, set()
         for k, o in self.objs.items():
             for r in BY_SRC[k[0]]:
                 v = getattr(o, r)
@@ -626,6 +641,7 @@ class _Run:
         self.touch_count = getattr(self, "touch_count", 0) + 1
         self.objs[k].name = f"t{self.touch_count}"
         m.dirty = True
+        m.touched.add(k)
         self.classes.add("touch-column")
         return f"touch {k}"
 
@@ -640,6 +656,7 @@ class _Run:
         self.touch_count = getattr(self, "touch_count", 0) + 1
         self.objs[old].name = f"t{self.touch_count}"
         m.dirty = True
+        m.touched.add(old)
         self.classes.add("touch-column")
         self.observe(f"touch {old} (before it loses its parent)")
         if m.has("owner", "delete-orphan") and m.members(old, "badges") and m.has("badges", "delete"):
